@@ -1,9 +1,72 @@
 import HedVerif.Driver.Util
+import HedVerif.Model.Assemble
 open Lean
 namespace HedVerif.Driver.C06
-open HedVerif HedVerif.Driver
+open HedVerif HedVerif.Driver HedVerif.Assemble
 
-/-- requests `{"op":"c06.<name>", ...}` of property C06 (stub: none yet) -/
-def handle (_op : String) (_j : Json) : Option (Except String Json) := none
+/-- sidecar values arrive order-preserving: `{"s": str}` | `{"o": [[key, value], …]}` | anything else -/
+partial def toJ (j : Json) : Except String J :=
+  match j.getObjVal? "s" with
+  | .ok (Json.str s) => pure (.str s.toList)
+  | _ => match j.getObjVal? "o" with
+    | .ok (Json.arr kvs) => do
+        let l ← kvs.toList.mapM fun kv => do
+          match kv with
+          | Json.arr #[Json.str k, v] => pure (k.toList, ← toJ v)
+          | _ => throw "object member must be [key, value]"
+        pure (.obj l)
+    | _ => pure .other
+
+def strList (j : Json) : Except String (List Str) := do (← asArr j).mapM asStr
+
+def kindName : Kind → String
+  | .ignore => "ignore" | .categorical => "categorical" | .value => "value" | .unknown => "none"
+
+def trKind : Tr → String
+  | .ident => "ident" | .value _ => "value" | .cat _ => "cat"
+
+def handle (op : String) (j : Json) : Option (Except String Json) :=
+  match op with
+  | "c06.replace_refs" => some do
+      let texts ← strList (← getVal j "texts")
+      let name ← getStr j "name"
+      let value ← getStr j "value"
+      let variant ← getString j "variant"
+      let f : Str → Except String (Option Str) ← match variant with
+        | "fixed" => pure fun t => pure (some (replaceRef t name value))
+        | "old" => pure fun t => pure (some (replaceRefOld t name value))
+        | "oldnum" => pure fun t => match (String.ofList name).toNat? with
+            | some n => pure (replaceRefOldNumeric t n)
+            | none => throw "oldnum needs a numeric name"
+        | _ => throw "variant must be fixed|old|oldnum"
+      let outs ← texts.mapM f
+      pure <| jobj [("outs", jarr (outs.map (jopt jstr))),
+                    ("ok_in", jarr (texts.map fun t => jbool (delimOk t))),
+                    ("ok_out", jarr (outs.map fun o => jbool ((o.map delimOk).getD false)))]
+  | "c06.delim" => some do
+      let texts ← strList (← getVal j "texts")
+      pure <| jobj [("ok", jarr (texts.map fun t => jbool (delimOk t)))]
+  | "c06.assemble" => some do
+      let sc ← (← getArr j "sidecar").mapM fun kv => do
+        match kv with
+        | Json.arr #[Json.str k, v] => pure (k.toList, ← toJ v)
+        | _ => throw "sidecar member must be [name, entry]"
+      let header ← strList (← getVal j "header")
+      let rows ← (← getArr j "rows").mapM strList
+      let refs := refsOf sc
+      let order ← match j.getObjVal? "ref_order" with
+        | .ok v => strList v
+        | .error _ => pure refs
+      let cols := activeCols sc header
+      let t : Table := ⟨header, rows⟩
+      pure <| jobj [
+        ("kinds", jarr (sc.map fun p => jarr [jstr p.1, Json.str (kindName (kind p.2))])),
+        ("refs", jarr (refs.map jstr)),
+        ("columns", jarr (cols.map fun c => jarr [jstr c.name, Json.str (trKind c.tr)])),
+        ("transformed", jarr (rows.map fun r => jarr ((transformed cols header r).map fun p => jstr p.2))),
+        ("series", jarr ((seriesWith order sc t).map jstr)),
+        ("series_rev", jarr ((seriesWith order.reverse sc t).map jstr)),
+        ("calls", jarr ((calls 3 ⟨sc, t⟩).1.map fun s => jarr (s.map jstr)))]
+  | _ => none
 
 end HedVerif.Driver.C06
